@@ -293,9 +293,17 @@ static void *dequeue(thread_pool_t *interface)
 			if (out != NULL)
 				break;
 
+			/* after a worker error, the workers shut down and the
+			   remaining items are never completed */
+			if (pool->status != 0)
+				break;
+
 			pthread_cond_wait(&pool->done_cond, &pool->mtx);
 		}
 		pthread_mutex_unlock(&pool->mtx);
+
+		if (out == NULL)
+			return NULL;
 	}
 
 	ptr = out->data;
